@@ -62,6 +62,9 @@ def load(repo=None, fresh=False, shim='value'):
             m.isinstance = sym_isinstance
             m.max = sym_max
             m.min = sym_min
+            if 'math' in m.__dict__:
+                from . import symmath
+                m.math = symmath.facade
             if shim == 'shape' and hasattr(m, 'rank_chop'):
                 m.rank_chop = _havoc_rank_chop          # stub: any rank in [1, len(s)] (the kernel itself is checked under C01)
     torchtt.__tv_shim__ = shim
